@@ -85,7 +85,30 @@ def marker_pin_only(case, detail, m):
     return all(any(t in n.get("what", "") for t in ok_notes) and "; " not in n.get("what", "") for n in notes)
 
 
-PREDICATES = {"marker_pin_only": marker_pin_only}
+SOLUTION_LEVEL = (r"^infeasible: group \S+ is served by \d+ tours$", r"^infeasible: shared resource \S+: \[[-0-9, ]*\] drawn, capacity \[[-0-9, ]*\]$")
+
+
+def solution_level_after_diversify(case, detail, m):
+    """known-finding predicate (S60): the ONLY failing entry is the feasibility oracle, every note belongs to a step of the
+    diversification composite / the infeasible search (the operators that end in `repair_solution_from_unknown`), and every note
+    names a SOLUTION-level rule - one tour per group, capacity of a shared reload resource - and nothing else"""
+    import re as _re, ast
+    if not isinstance(detail, str) or not detail.startswith("oracle failed: "):
+        return False
+    head, _, rest = detail[len("oracle failed: "):].partition(" ")
+    if head != "assigned_part_feasible":
+        return False
+    try:
+        notes = ast.literal_eval(rest.strip())
+    except Exception:
+        return False
+    if not notes or len(notes) >= 6:
+        return False
+    return all(n.get("op") in ("diversify", "infeasible_search") and any(_re.match(rx, n.get("what", "")) for rx in SOLUTION_LEVEL)
+               for n in notes)
+
+
+PREDICATES = {"marker_pin_only": marker_pin_only, "solution_level_after_diversify": solution_level_after_diversify}
 
 
 
